@@ -29,6 +29,7 @@ func c04Specs(tier string) []spaceSpec {
 			{sp: &gram.Space{Name: "full-2nt", Alpha: gram.Full, NNT: 2, Min: 2, Max: 5}, maxLen: 3, alpha: ab},
 			{sp: &gram.Space{Name: "all-combinators-1nt", Alpha: fullAll, NNT: 1, Min: 2, Max: 5}, maxLen: 3, alpha: ab},
 			{sp: &gram.Space{Name: "core1-2nt-mutual", Alpha: gram.Core1, NNT: 2, Min: 2, Max: 8}, maxLen: 3, alpha: []byte{'a'}, mutualOnly: true},
+			templateSpec("ab", 3, 1, 3),
 		}
 	}
 	return []spaceSpec{
@@ -37,6 +38,7 @@ func c04Specs(tier string) []spaceSpec {
 		{sp: &gram.Space{Name: "full-2nt", Alpha: gram.Full, NNT: 2, Min: 2, Max: 4}, maxLen: 3, alpha: ab},
 		{sp: &gram.Space{Name: "all-combinators-1nt", Alpha: fullAll, NNT: 1, Min: 2, Max: 4}, maxLen: 3, alpha: ab},
 		{sp: &gram.Space{Name: "core1-2nt-mutual", Alpha: gram.Core1, NNT: 2, Min: 2, Max: 7}, maxLen: 2, alpha: []byte{'a'}, mutualOnly: true},
+		templateSpec("ab", 3, 1, 2),
 	}
 }
 
